@@ -15,7 +15,9 @@ numpy vocabulary, equality with the hand-written model Model/C02_Conv.truncate_h
 
 Subset (anything else raises Unsupported, exit 3 - the tie is then reported broken, never skipped):
   def with positional parameters (defaults must be constants); docstring; `x = e`; `return e`; `if c: raise Exc(...)`;
-  `if c: x = e` (conditional re-assignment, no else); `acc = []` + `for v in xs: <assignments>; acc.append(e)`;
+  `if c: x = e` (conditional re-assignment, no else); `if c: <block ending in return / raise> else: <block ending in return / raise>`;
+  `acc = []` + `for v in xs: <assignments>; acc.append(e)` (map);  `for v in xs: t = e` with t already bound (fold);  subscripts `x[i]`;
+  `self.m(..)` where Class.m is itself listed is a call of the regenerated method;
   expressions: names, constants, attributes, calls (positional + keyword), method calls, tuples, binary / boolean / comparison / unary-not
   operators, conditional expressions, f-strings only inside `raise`.
 A call to a function that is itself in the list is translated as a call of the regenerated definition (arguments bound by position / keyword,
@@ -39,6 +41,8 @@ TARGETS = [   # (file, qualified name); order irrelevant, emitted in dependency 
     ("quara/objects/povm.py", "to_vecs_from_matrices_with_sparsity"),
     ("quara/objects/povm.py", "to_matrices_from_var"),
     ("quara/objects/povm.py", "to_var_from_matrices"),
+    ("quara/objects/povm.py", "Povm._md_index2serial_index"),
+    ("quara/objects/povm.py", "Povm.vec"),
     ("quara/objects/povm.py", "Povm.matrices_with_sparsity"),
     ("quara/objects/povm.py", "Povm.matrix_with_sparsity"),
     ("quara/objects/gate.py", "to_choi_from_hs_with_sparsity"),
@@ -52,6 +56,7 @@ TARGETS = [   # (file, qualified name); order irrelevant, emitted in dependency 
     ("quara/objects/gate.py", "Gate.to_process_matrix"),
 ]
 MODULES = {"np", "mutil", "matrix_util", "sparse", "Settings", "itertools"}
+BUILTIN_CONSTS = {"tuple", "int", "list", "float"}      # type objects compared with type(x)
 MODULE_ALIAS = {"mutil": "quara/utils/matrix_util.py", "matrix_util": "quara/utils/matrix_util.py"}
 
 
@@ -110,8 +115,8 @@ def const_name(cx, v, node):
 
 
 class Tr:
-    def __init__(self, cx, file, fn, gname):
-        self.cx, self.file, self.fn, self.gname = cx, file, fn, gname
+    def __init__(self, cx, file, fn, gname, cls=None):
+        self.cx, self.file, self.fn, self.gname, self.cls = cx, file, fn, gname, cls
         self.fresh = 0
 
     # ---------------------------------------------------------------- expressions
@@ -123,6 +128,8 @@ class Tr:
         if isinstance(e, ast.Name):
             if e.id in env:
                 return env[e.id]
+            if e.id in BUILTIN_CONSTS:
+                return self.app(self.cx.sym("builtin_" + e.id, 0), [])
             fail(e, "free name %s" % e.id)
         if isinstance(e, ast.Constant):
             return self.app(const_name(self.cx, e.value, e), [])
@@ -146,6 +153,10 @@ class Tr:
             if len(e.ops) != 1:
                 fail(e, "chained comparison")
             return self.app("cmp_" + type(e.ops[0]).__name__, [self.expr(e.left, env), self.expr(e.comparators[0], env)])
+        if isinstance(e, ast.Subscript):
+            if isinstance(e.slice, ast.Slice) or (isinstance(e.slice, ast.Tuple)):
+                fail(e, "slice / tuple subscript")
+            return self.app("subscr", [self.expr(e.value, env), self.expr(e.slice, env)])
         if isinstance(e, ast.IfExp):
             return self.app("ite", [self.expr(e.test, env), self.expr(e.body, env), self.expr(e.orelse, env)])
         if isinstance(e, ast.Call):
@@ -169,6 +180,10 @@ class Tr:
             if f.value.id in MODULE_ALIAS:
                 target = (MODULE_ALIAS[f.value.id], f.attr)
             base = "call_%s_%s" % (f.value.id, f.attr)
+        elif isinstance(f, ast.Attribute) and isinstance(f.value, ast.Name) and f.value.id == "self" and self.cls and (self.file, self.cls + "." + f.attr) in self.cx.funs:
+            target = (self.file, self.cls + "." + f.attr)
+            pos = [env["self"]] + pos
+            base = None
         elif isinstance(f, ast.Attribute):
             obj = self.expr(f.value, env)
             name = "meth_%s_%d" % (f.attr, len(pos) + len(kws)) + "".join("__" + k for k, _ in kws)
@@ -234,6 +249,30 @@ class Tr:
                 val = "(list_map s (fun %s => %s) %s)" % (v, inner, self.expr(loop.iter, env))
                 return self.bind(name, val, rest[1:], env)
             return self.bind(name, self.expr(st.value, env), rest, env)
+        if isinstance(st, ast.Raise):
+            exc = st.exc.func.id if isinstance(st.exc, ast.Call) and isinstance(st.exc.func, ast.Name) else (st.exc.id if isinstance(st.exc, ast.Name) else None)
+            if exc is None:
+                fail(st, "raise form")
+            return self.app("raise_" + exc, [])
+        if isinstance(st, ast.For):
+            # fold:  for v in xs: t = e      (t already bound)
+            if st.orelse or not isinstance(st.target, ast.Name) or len(st.body) != 1 or not isinstance(st.body[0], ast.Assign):
+                fail(st, "loop form")
+            b = st.body[0]
+            if len(b.targets) != 1 or not isinstance(b.targets[0], ast.Name) or b.targets[0].id not in env:
+                fail(st, "fold loop must re-assign one bound variable")
+            t = b.targets[0].id
+            self.fresh += 1
+            tv, vv = "%s_%d" % (ident(t), self.fresh), "%s_%dv" % (ident(st.target.id), self.fresh)
+            env2 = dict(env); env2[t] = tv; env2[st.target.id] = vv
+            self.cx.sym("list_fold", -2)
+            val = "(list_fold s (fun %s %s => %s) %s %s)" % (tv, vv, self.expr(b.value, env2), self.expr(st.iter, env), env[t])
+            return self.bind(t, val, rest, env)
+        if isinstance(st, ast.If) and st.orelse:
+            # both branches must end the function (return / raise)
+            if rest:
+                fail(st, "if/else followed by code")
+            return self.app("ite", [self.expr(st.test, env), self.block(st.body, env), self.block(st.orelse, env)])
         if isinstance(st, ast.If) and not st.orelse:
             cond = self.expr(st.test, env)
             if len(st.body) == 1 and isinstance(st.body[0], ast.Raise):
@@ -283,12 +322,11 @@ def main():
                 fail(fn, "non-constant default")
             defaults[p] = dflt.value
         gname = "gen_" + ident(qual)
-        if "." not in qual:
-            cx.funs[(file, qual)] = (gname, params, defaults)
+        cx.funs[(file, qual)] = (gname, params, defaults)
         nodes.append((file, qual, fn, gname, params))
     defs = {}
     for file, qual, fn, gname, params in nodes:
-        tr = Tr(cx, file, fn, gname)
+        tr = Tr(cx, file, fn, gname, qual.split(".")[0] if "." in qual else None)
         env = {p: "p_" + ident(p) for p in params}
         body = tr.block(fn.body, env)
         defs[gname] = "Definition %s {V : Type} (s : sym V)%s : V :=\n  %s." % (gname, "".join(" (p_%s : V)" % ident(p) for p in params), body)
@@ -309,7 +347,7 @@ def main():
     fields = []
     for name in sorted(cx.syms):
         ar = cx.syms[name]
-        ty = "(V -> V) -> V -> V" if ar == -1 else " -> ".join(["V"] * (ar + 1))
+        ty = "(V -> V) -> V -> V" if ar == -1 else ("(V -> V -> V) -> V -> V -> V" if ar == -2 else " -> ".join(["V"] * (ar + 1)))
         fields.append("  %s : %s" % (name, ty))
     lines.append(";\n".join(fields) + " }.")
     for g in order:
